@@ -91,9 +91,13 @@ Inductive stmt_kind :=
 | K_try_except_else
 | K_if_stmt
 | K_while_stmt
-| K_serial_host_call.
+| K_serial_host_call
+| K_while_true_stmt
+| K_try_except
+| K_blank_line.
 
-Inductive context := Top | Nested | Func | MainLoop.
+(* AfterLoop: at column 0 AFTER the block of the main `while True:` - Python never reaches such a line *)
+Inductive context := Top | Nested | Func | MainLoop | AfterLoop.
 Inductive outcome := Translated | Rejected | Ignored.
 Definition row := (stmt_kind * context * outcome)%type.
 
@@ -169,9 +173,12 @@ Definition kind_id (k : stmt_kind) : nat :=
   | K_if_stmt => 67
   | K_while_stmt => 68
   | K_serial_host_call => 69
+  | K_while_true_stmt => 70
+  | K_try_except => 71
+  | K_blank_line => 72
   end.
 Definition kind_eqb (a b : stmt_kind) : bool := Nat.eqb (kind_id a) (kind_id b).
-Definition ctx_id (c : context) : nat := match c with Top => 0 | Nested => 1 | Func => 2 | MainLoop => 3 end.
+Definition ctx_id (c : context) : nat := match c with Top => 0 | Nested => 1 | Func => 2 | MainLoop => 3 | AfterLoop => 4 end.
 Definition ctx_eqb (a b : context) : bool := Nat.eqb (ctx_id a) (ctx_id b).
 Definition outcome_eqb (a b : outcome) : bool :=
   match a, b with Translated, Translated | Rejected, Rejected | Ignored, Ignored => true | _, _ => false end.
@@ -190,8 +197,9 @@ Definition all_kinds : list stmt_kind :=
    K_async_def; K_decorator; K_continue_in_while; K_continue_in_for; K_continue_outside_loop;
    K_break_in_while; K_break_in_for; K_break_outside_loop; K_while_else; K_for_else;
    K_for_over_list; K_for_over_name; K_for_range_1arg; K_for_range_2args; K_for_range_3args;
-   K_try_finally; K_try_except_else; K_if_stmt; K_while_stmt; K_serial_host_call].
-Definition all_contexts : list context := [Top; Nested; Func; MainLoop].
+   K_try_finally; K_try_except_else; K_if_stmt; K_while_stmt; K_serial_host_call;
+   K_while_true_stmt; K_try_except; K_blank_line].
+Definition all_contexts : list context := [Top; Nested; Func; MainLoop; AfterLoop].
 
 Definition row_kind (r : row) : stmt_kind := fst (fst r).
 Definition row_ctx (r : row) : context := snd (fst r).
@@ -222,7 +230,8 @@ Definition allowed (k : stmt_kind) : bool :=
   | K_target_call
   | K_docstring
   | K_string_expr
-  | K_comment_line => true
+  | K_comment_line
+  | K_blank_line => true          (* not a statement at all *)
   | _ => false
   end.
 
@@ -231,8 +240,10 @@ Definition allowed (k : stmt_kind) : bool :=
    F-C07-drop-serial-host-call) *)
 Definition gap_kinds : list stmt_kind := [K_serial_host_call].
 Definition gap_pairs : list (stmt_kind * context) := [].
+(* (after the main loop the call is rejected like every other statement: no gap there) *)
+Definition reachable_contexts : list context := [Top; Nested; Func; MainLoop].
 Definition known_gaps : list (stmt_kind * context) :=
-  flat_map (fun k => map (pair k) all_contexts) gap_kinds ++ gap_pairs.
+  flat_map (fun k => map (pair k) reachable_contexts) gap_kinds ++ gap_pairs.
 Definition known_gap (k : stmt_kind) (c : context) : bool :=
   existsb (fun p => kind_eqb k (fst p) && ctx_eqb c (snd p)) known_gaps.
 
@@ -265,9 +276,25 @@ Definition complete (t : list row) : bool :=
 
 (* ------------------------------------------------------------ what the supported subset must do *)
 Definition translated_kinds : list stmt_kind :=
-  [K_assign; K_assign_ret_prefix; K_augassign; K_tuple_assign; K_dev_known_method; K_sleep_call; K_bare_expr; K_break_in_while; K_break_in_for; K_continue_in_while; K_continue_in_for; K_for_range_1arg; K_if_stmt; K_while_stmt].
+  [K_assign; K_assign_ret_prefix; K_augassign; K_tuple_assign; K_dev_known_method; K_sleep_call; K_bare_expr; K_break_in_while; K_break_in_for; K_continue_in_while; K_continue_in_for; K_for_range_1arg; K_if_stmt; K_while_stmt; K_try_except].
+(* after the main loop nothing may be accepted: every statement there is unreachable in Python, so a
+   translation would put it into a phase Python never runs it in (a second `while True:` merged into
+   loop(), a `def` emitted as a function) and a silent skip would lose it without a diagnostic.  A
+   comment line stays a comment line; the other lines of the fixed set (imports, target(), pass,
+   print, global, docstrings) may be skipped or rejected - never translated. *)
+Definition pinned_after_loop (k : stmt_kind) : option outcome :=
+  match k with
+  | K_comment_line | K_blank_line => Some Ignored
+  | _ => if allowed k then None else Some Rejected
+  end.
+Definition after_loop_ok (r : row) : bool :=
+  match row_ctx r with
+  | AfterLoop => negb (outcome_eqb (row_outcome r) Translated)
+  | _ => true
+  end.
 Definition pinned (k : stmt_kind) (c : context) : option outcome :=
-  if existsb (kind_eqb k) translated_kinds then Some Translated
+  if ctx_eqb c AfterLoop then pinned_after_loop k
+  else if existsb (kind_eqb k) translated_kinds then Some Translated
   else if allowed k then Some Ignored
   else match k, c with
        | K_return_value, Func | K_return_bare, Func => Some Translated
@@ -279,6 +306,7 @@ Definition pinned (k : stmt_kind) (c : context) : option outcome :=
        | _, _ => if former_gap k c then Some Rejected else None   (* unsupported statement: a diagnostic, never silence *)
        end.
 Definition row_pinned_ok (r : row) : bool :=
+  after_loop_ok r &&
   match pinned (row_kind r) (row_ctx r) with
   | Some o => outcome_eqb o (row_outcome r)
   | None => true
